@@ -505,30 +505,38 @@ def HSpace.virtualSupports (s : HSpace) (ix : List (List (List Idx))) : List (Li
 
 def indexOf (l : List Idx) (x : Idx) : Nat := l.findIdx (· == x)
 
+/-- `sum(nac[:k])` -/
+def nacUpTo (levels : List Level) (k : Nat) : Nat := ((levels.map (fun l => l.act.length)).take k).sum
+
+/-- `cell_index[k]`: first the active, then the deactivated cells of level `k`, each sorted -/
+def cellIndexAt (levels : List Level) (k : Nat) : List Idx :=
+  sortIdx (levels.getD k emptyLevel).act ++ sortIdx (levels.getD k emptyLevel).deact
+
+/-- column of the level-`k` cell `c` in a matrix of width `nac[:k] + nac[k] + ndc[k]` -/
+def encCell (levels : List Level) (k : Nat) (c : Idx) : Nat :=
+  nacUpTo levels k + indexOf (cellIndexAt levels k) c
+
+/-- `incidence_1level(k)`: one row (list of columns) per active function of level `k` -/
+def incOne (kvs : Mesh) (levels : List Level) (k : Nat) : List (List Nat) :=
+  (sortIdx (levels.getD k emptyLevel).actfun).map
+    (fun f => ((meshAt kvs k).support [f]).map (encCell levels k))
+
+/-- a row times `cell_prolongation(k).T`: column `j < nac[:k+1]` stays; deactivated cell
+`j - nac[:k+1]` of level `k` goes to the columns of its children on level `k+1` -/
+def incProl (levels : List Level) (k : Nat) (row : List Nat) : List Nat :=
+  let n0 := nacUpTo levels (k + 1)
+  row.flatMap (fun j =>
+    if j < n0 then [j]
+    else (childrenOne ((cellIndexAt levels k).getD (j - n0 + (levels.getD k emptyLevel).act.length) [])).map
+      (encCell levels (k + 1)))
+
 /-- `incidence_matrix()`: for every active function (canonical order) the list of columns
-(canonical active-cell numbers) with their multiplicity-expanded entries. -/
+(canonical active-cell numbers), a column repeated as often as the integer entry says. -/
 def HSpace.incidence (s : HSpace) : List (List Nat) :=
   let L := s.numlevels
-  let nac := s.levels.map (fun l => l.act.length)
-  let cellIndex := s.levels.map (fun l => sortIdx l.act ++ sortIdx l.deact)
-  let nacUpTo := fun k => (nac.take k).sum
-  -- incidence_1level(k)
-  let one := fun (k : Nat) =>
-    let l := s.level k
-    let ci := cellIndex.getD k []
-    (sortIdx l.actfun).map (fun f => ((s.mesh k).support [f]).map (fun c => nacUpTo k + indexOf ci c))
-  -- cell_prolongation(k).T applied to a row: column j < nac[:k+1] stays; deactivated cell i of
-  -- level k goes to the columns of its children on level k+1
-  let prol := fun (k : Nat) (row : List Nat) =>
-    let n0 := nacUpTo (k + 1)
-    let cik := cellIndex.getD k []
-    let cik1 := cellIndex.getD (k + 1) []
-    row.flatMap (fun j =>
-      if j < n0 then [j]
-      else (childrenOne (cik.getD (j - n0 + (nac.getD k 0)) [])).map (fun c => n0 + indexOf cik1 c))
-  let result := (List.range L).map one
+  let result := (List.range L).map (incOne s.kvs s.levels)
   let result := (List.range (L - 1)).foldl (fun res k =>
-    mapFrom (fun j rows => if j ≤ k then rows.map (prol k) else rows) 0 res) result
+    mapFrom (fun j rows => if j ≤ k then rows.map (incProl s.levels k) else rows) 0 res) result
   result.flatten
 
 end Pyiga.Hier
